@@ -406,13 +406,33 @@ EMIT_CHANNELS = ["post_setup", "time_step__prepare", "time_step", "time_step__cl
 OUTER_STATES = ["post_setup", "population_creation", "collect_metrics", "simulation_end", "report"]
 
 
+CREATOR_STATES = ("time_step__prepare", "time_step", "time_step__cleanup", "collect_metrics")   # where initializers may write
+
+
+def label_base(label):
+    """`view.get` of `view.get@query+frame`: service part of a call label <service>[/how | @handle variant][+call variant]"""
+    import re
+    return re.split(r"[@/+]", label)[0]
+
+
 def svc_of_label(label):
     """named service number of a call label (None: a service the property does not name)"""
     if label in CALL_SVC:
         return CALL_SVC[label]
-    if "@" in label:
-        return VARIANT_SVC.get(label.split("@")[0])
+    if label in SUBVIEW_CALLS:
+        return None
+    if "@" in label or "+" in label:
+        return VARIANT_SVC.get(label_base(label))
     return None
+
+
+# the update calls that create their column during the initial creation; every other update call of that hook brings no new
+# column and is refused by the view itself AFTER the guard
+COLUMN_CREATORS = {"view.update/attr", "view.update/bound", "view.update@str", "view.update@query"}
+
+
+def strict_exempt(label, state):
+    return state == "population_creation" and label_base(label) == "view.update" and label not in COLUMN_CREATORS
 
 
 _VARIANTS = {}
@@ -438,8 +458,9 @@ def variants():
         streams.append("second")
         pipes = ["late", "late2", "union"] + (["rate"] if hasattr(ValuesInterface, "register_rate_producer") else [])
         tables = ["cat", "interp", "multi", "equal1", "equal2"] + (["comp"] if hasattr(Component, "build_lookup_table") else [])
+        from vivarium.framework.randomness.stream import RandomnessStream
         _VARIANTS.update(streams=streams, views=["str", "full", "query", "twice1", "twice2", "after_sub", "narrow"],
-                         pipes=pipes, tables=tables)
+                         pipes=pipes, tables=tables, sample=hasattr(RandomnessStream, "sample_from_distribution"))
     return _VARIANTS
 
 
@@ -450,6 +471,16 @@ def call_labels():
     for x in v["streams"]:
         rest += [f"get_draw@{x}", f"filter_for_probability@{x}", f"filter_for_rate@{x}", f"choice@{x}"]
     rest += [f"table@{x}" for x in v["tables"]]
+    # CALL VARIANTS of every handle: each public way of calling it must meet the guard
+    updates += ["view.update/attr+series"] + [f"view.update@{x}+frame" for x in v["views"]]
+    rest += ["view.get/attr+query"] + [f"view.get@{x}+query" for x in v["views"]]
+    rest += ["pipe/own+skip", "pipe@union+kw", "pipe/early+skip"] + [f"pipe@{x}+skip" for x in v["pipes"]]
+    for sfx in ["/attr"] + [f"@{x}" for x in v["streams"]]:
+        rest += [f"get_draw{sfx}+key", f"filter_for_probability{sfx}+key", f"filter_for_rate{sfx}+key", f"choice{sfx}+p"]
+        if v["sample"]:
+            rest.append(f"get_draw{sfx}+sample")          # sample_from_distribution reaches the guard of get_draw
+    rest += [f"table@{x}+call" for x in v["tables"]]
+    rest += ["creator", "creator+config"]
     return BASE_CALLS[:4] + updates + BASE_CALLS[4:] + rest
 
 
@@ -500,6 +531,8 @@ def make_classes():
             self.visits = {}
             self.counter = 0
             self.sim = None
+            self.peers = []
+            self.in_creator = False
 
         def get_initialization_parameters(self):
             return {"tag": self.tag}
@@ -538,6 +571,7 @@ def make_classes():
             self.early_pipe = builder.value.get_value(f"c07_val_{(t + 1) % self.n_probes}")
             self.view = builder.population.get_view([c for c in cols if c[-1] in "abcdk"])
             self.pipe = builder.value.register_value_producer(f"c07_val_{t}", source=self.source)
+            self.creator = builder.population.get_simulant_creator()
             self.setup_variants(builder)
             self.stream = builder.randomness.get_stream(f"c07_stream_{t}")
             self.table = builder.lookup.build_table(5)
@@ -707,6 +741,41 @@ def make_classes():
                 d[f"choice@{vn}"] = ("attr", (s_, "choice"), (lambda s_=s_: s_.choice(idx, [1, 2])))
             for vn, tb in self.vtables.items():
                 d[f"table@{vn}"] = ("table", tb, (lambda tb=tb: tb(idx)))
+            # ---- call variants ----
+            def frame(c):
+                return pd.DataFrame({c: 1.0}, index=idx)
+            d["view.update/attr+series"] = ("attr", (self.view, "update"), lambda: self.view.update(upd(self.col("a"))))
+            d["view.get/attr+query"] = ("attr", (self.view, "get"), lambda: self.view.get(idx, query=f"{self.col('a')} >= 0"))
+            for vn, vw in self.vviews.items():
+                c = self.vview_col[vn]
+                d[f"view.update@{vn}+frame"] = ("attr", (vw, "update"), (lambda vw=vw, c=c: vw.update(frame(c))))
+                d[f"view.get@{vn}+query"] = ("attr", (vw, "get"), (lambda vw=vw, c=c: vw.get(idx, query=f"{c} >= 0")))
+            d["pipe/own+skip"] = ("pipe", self.pipe, lambda: self.pipe(idx, skip_post_processor=True))
+            d["pipe@union+kw"] = ("pipe", self.vpipes["union"], lambda: self.vpipes["union"](index=idx))   # no modifiers
+            d["pipe/early+skip"] = ("pipe", self.early_pipe, lambda: self.early_pipe(idx, skip_post_processor=True))
+            for vn, pp in self.vpipes.items():
+                d[f"pipe@{vn}+skip"] = ("pipe", pp, (lambda pp=pp: pp(idx, skip_post_processor=True)))
+            for sfx, s_ in [("/attr", self.stream)] + [(f"@{vn}", x) for vn, x in self.vstreams.items()]:
+                d[f"get_draw{sfx}+key"] = ("attr", (s_, "get_draw"), (lambda s_=s_: s_.get_draw(idx, additional_key="k")))
+                d[f"filter_for_probability{sfx}+key"] = ("attr", (s_, "filter_for_probability"),
+                                                         (lambda s_=s_: s_.filter_for_probability(idx, 0.5, additional_key="k")))
+                d[f"filter_for_rate{sfx}+key"] = ("attr", (s_, "filter_for_rate"),
+                                                  (lambda s_=s_: s_.filter_for_rate(idx, 0.5, additional_key="k")))
+                d[f"choice{sfx}+p"] = ("attr", (s_, "choice"), (lambda s_=s_: s_.choice(idx, [1, 2], p=[0.25, 0.75])))
+                if hasattr(s_, "sample_from_distribution"):
+                    d[f"get_draw{sfx}+sample"] = ("attr", (s_, "get_draw"),
+                                                  (lambda s_=s_: s_.sample_from_distribution(idx, ppf=lambda q: q)))
+            for vn, tb in self.vtables.items():
+                d[f"table@{vn}+call"] = ("attr", (tb, "call"), (lambda tb=tb: tb.call(idx)))
+
+            def create(**kw):
+                self.in_creator = True
+                try:
+                    return self.creator(0, **kw)
+                finally:
+                    self.in_creator = False
+            d["creator"] = ("function", self.creator, lambda: create())
+            d["creator+config"] = ("function", self.creator, lambda: create(population_configuration={"c07": 1}))
             if self.sub is not None:
                 d["sub.update/attr"] = ("attr", (self.sub, "update"), lambda: self.sub.update(upd(self.col("c"))))
                 d["sub.update/bound"] = ("handle", "sub.update/bound",
@@ -739,8 +808,9 @@ def make_classes():
             for label in call_labels():
                 if label not in th:
                     continue
-                forced = (state == "population_creation"
-                          and label.replace("@", "/").split("/")[0] in ("view.update", "sub.update"))
+                if label_base(label) == "creator" and state not in CREATOR_STATES:
+                    continue      # creating (zero) simulants before / inside the initial creation would derail the run
+                forced = state == "population_creation" and label_base(label) in ("view.update", "sub.update")
                 if not (forced or self.plan(self.tag, state, v, label)):
                     continue
                 how, ref, thunk = th[label]
@@ -753,6 +823,10 @@ def make_classes():
                     k = self.bound[ref][1]
                     m = self.rec.method_id(*_handle_target(self, ref))
                     self.rec.called("handle", k, code, {"label": label, "state": state, "probe": self.tag})
+                elif how == "function":
+                    m = (self.rec.method_id(ref.__self__, ref.__name__) if hasattr(ref, "__self__")
+                         else self.rec.function_id(ref))
+                    self.rec.called("attr", m, code, {"label": label, "state": state, "probe": self.tag})
                 elif how in ("pipe", "table"):
                     m = self.constrained_method_of(ref)
                     if m is None:
@@ -782,6 +856,8 @@ def make_classes():
             self.hook("post_setup", None)
 
         def on_initialize_simulants(self, pop_data):
+            if getattr(self, "in_creator", False) or any(getattr(p, "in_creator", False) for p in self.peers):
+                return          # a probe's own creator(0) call: no simulant is created, nothing to probe
             self.hook("population_creation", pop_data.index)
 
         def on_time_step_prepare(self, event):
@@ -895,6 +971,7 @@ def run_program(n_probes, layout, plan, interactive=False, days=2, use_subviews=
         boot.quiet_logging()
         for p in probes:
             p.sim = sim
+            p.peers = probes
         err = None
         try:
             def outer():
@@ -1103,7 +1180,8 @@ def run_handle(case):
 
 # ---- stream `cells`: service handle x state x age ------------------------------------------------------------------
 def all_cells():
-    cells = [{"call": c, "state": s, "age": a} for c in call_labels() for s in RUN_STATES for a in range(3)]
+    cells = [{"call": c, "state": s, "age": a} for c in call_labels() for s in RUN_STATES for a in range(3)
+             if not (label_base(c) == "creator" and s not in CREATOR_STATES)]
     # the emitters (channel.emit), called from OUTSIDE the engine in every outer state
     cells += [{"call": f"emit@{ch}", "state": s, "age": 0} for ch in EMIT_CHANNELS for s in OUTER_STATES]
     return cells
@@ -1135,11 +1213,17 @@ def run_cell(case):
     if mx["err"] is not None:
         return Result(ok=False, msg=f"the matrix context did not run to the end: {mx['err']!r}")
     p = mx["probes"][age]
-    visits = [(v, code, err, m, note) for st, v, lab, code, err, m, note in p.log if st == state and lab == label]
+    idx = mx.setdefault("index", {})
+    if age not in idx:                      # (state, label) -> visits, built once per probe
+        d = {}
+        for st, v, lab, code, err, m, note in p.log:
+            d.setdefault((st, lab), []).append((v, code, err, m, note))
+        idx[age] = d
+    visits = idx[age].get((state, label), [])
     if not visits:
         return Result(ok=False, msg=f"harness: call {label} was never issued in state {state} by probe {age}")
     ok, msg, fclass = True, "", None
-    named = svc_of_label(label) is not None and (label, state) not in STRICT_EXEMPT
+    named = svc_of_label(label) is not None and not strict_exempt(label, state)
     for v, code, err, m, note in visits:
         o, ms, fc = oracle_call(label, state, code, note)
         if not o:
@@ -1631,7 +1715,7 @@ def streams(tier):
                run=run_cell, exhaustive=all_cells, finding_of=finding_cells,
                doc="service handle x state x handle age on a real context, every visit"),
         Stream(name="real", imports="From Viv Require Import Common Lifecycle Constraints.", check="check_hist_real",
-               gen=gen_real, run=run_real, n_quick=14, n_thorough=100, finding_of=finding_real, shrink=shrink_real),
+               gen=gen_real, run=run_real, n_quick=6, n_thorough=50, finding_of=finding_real, shrink=shrink_real),
         Stream(name="hist", imports="From Viv Require Import Common Lifecycle Constraints.", check="check_hist",
                gen=gen_hist, run=run_hist, n_quick=400, n_thorough=8000, shrink=shrink_hist),
         Stream(name="install", imports="From Viv Require Import Common Lifecycle Constraints.", check="check_install",
